@@ -42,6 +42,7 @@ func init() {
 		ZZ + ".Int":         func(fr *frame, a []value) value { return fr.i.input(a[0], types.Int, 0, 0, false) },
 		ZZ + ".F64":         func(fr *frame, a []value) value { return fr.i.input(a[0], types.Float64, 0, 0, false) },
 		ZZ + ".IntRange":    ext۰zz۰IntRange,
+		ZZ + ".ByteIn":      ext۰zz۰ByteIn,
 		ZZ + ".U64Range":    ext۰zz۰U64Range,
 		ZZ + ".Choice":      ext۰zz۰Choice,
 		ZZ + ".Bytes":       ext۰zz۰Bytes,
@@ -347,6 +348,30 @@ func ext۰zz۰IntRange(fr *frame, a []value) value {
 		panic(pathAbort{"empty range"})
 	}
 	return fr.i.input(a[0], types.Int, lo, hi, true)
+}
+
+// ByteIn(name, alphabet): a byte constrained to the alphabet by one disjunction (no forking).
+func ext۰zz۰ByteIn(fr *frame, a []value) value {
+	alpha := mustConcreteString(a[1])
+	if len(alpha) == 0 {
+		panic(pathAbort{"empty alphabet"})
+	}
+	i := fr.i
+	if i.mode == Concrete {
+		idx := i.input(a[0], types.Uint64, 0, int64(len(alpha)-1), true).(uint64)
+		return alpha[idx]
+	}
+	v := i.input(a[0], types.Uint8, 0, 0, false)
+	s, ok := v.(sym)
+	if !ok {
+		return v
+	}
+	var alts []*smt.Term
+	for k := 0; k < len(alpha); k++ {
+		alts = append(alts, i.tb.Eq(s.t, i.tb.BVConst(uint64(alpha[k]), 8)))
+	}
+	i.path.pc = append(i.path.pc, i.tb.Or(alts...))
+	return v
 }
 
 func ext۰zz۰U64Range(fr *frame, a []value) value {
